@@ -15,6 +15,7 @@ import (
 	"os"
 	"os/exec"
 	"path/filepath"
+	"strings"
 	"sync"
 	"syscall"
 	"time"
@@ -62,6 +63,25 @@ var procSeq int
 // StartProc starts a child server on the bed's store. rpcPort / restPort 0 = pick free ports
 // (a restarted server reuses the ports of its predecessor).
 func (b *Bed) StartProc(workDir string, rpcPort, restPort int) (*Proc, error) {
+	// A port picked as free (or inherited from the killed predecessor) can be taken by an
+	// unrelated socket of this machine before the child binds it - the ports lie in the range
+	// the kernel hands out for outgoing connections. That is no property of the store the
+	// child starts on: such a start is repeated with fresh ports (clients reach the child
+	// through the front, so its own ports need not be stable).
+	var p *Proc
+	var err error
+	for try := 0; try < 4; try++ {
+		if p, err = b.startProcOnce(workDir, rpcPort, restPort); err == nil || !(strings.Contains(err.Error(), "address already in use") || strings.Contains(err.Error(), "server selection")) {
+			return p, err
+		}
+		if strings.Contains(err.Error(), "address already in use") {
+			rpcPort, restPort = 0, 0
+		}
+	}
+	return p, err
+}
+
+func (b *Bed) startProcOnce(workDir string, rpcPort, restPort int) (*Proc, error) {
 	bin := ServerBinary()
 	if _, err := os.Stat(bin); err != nil {
 		return nil, fmt.Errorf("child server binary missing (%s): %v", bin, err)
@@ -130,7 +150,11 @@ func (b *Bed) StartProc(workDir string, rpcPort, restPort int) (*Proc, error) {
 	for {
 		select {
 		case <-p.done:
-			return nil, fmt.Errorf("child server exited during start-up (%s): %s", p.ExitDescription(), p.LogTail(1500))
+			why := ""
+			if lb, _ := os.ReadFile(p.Log); strings.Contains(string(lb), "address already in use") {
+				why = " [bind: address already in use]"
+			}
+			return nil, fmt.Errorf("child server exited during start-up (%s)%s: %s", p.ExitDescription(), why, p.LogTail(1500))
 		default:
 		}
 		ctx, cancel := context.WithTimeout(context.Background(), 500*time.Millisecond)
